@@ -241,3 +241,43 @@ Proof.
   assert (E : alpha c / dt * x c - alpha c * old c / dt = alpha c / dt * (x c - old c)) by (field; exact Hdt).
   change (K ROps) with R in *. lra.
 Qed.
+
+(* C04: uniqueness. Two solutions of the same system (same previous values, same boundary data) coincide on the unknown cells,
+   because their difference solves the homogeneous system and is therefore bounded above and below by 0. *)
+Lemma axis_term_sub (m : Mesh ROps) (D u : fvar ROps) (x y : cvar ROps) a c :
+  axis_term m D u (fun c => x c - y c) a c = axis_term m D u x a c - axis_term m D u y a c.
+Proof. unfold axis_term, apply_axis. cbn [kadd kmul ROps K]. ring. Qed.
+Lemma rsuml_axis_term_sub (m : Mesh ROps) (D u : fvar ROps) (x y : cvar ROps) c (l : list axis) :
+  rsuml (fun a => axis_term m D u (fun c1 => x c1 - y c1) a c) l
+  = rsuml (fun a => axis_term m D u x a c) l - rsuml (fun a => axis_term m D u y a c) l.
+Proof. unfold rsuml. induction l as [|a l IH]; cbn [map fold_right]; [lra|]. rewrite IH, axis_term_sub. lra. Qed.
+
+Theorem solution_unique (m : Mesh ROps) (D u : fvar ROps) (x y alpha beta old : cvar ROps) (dt : R) (cells : list cell) :
+  cells <> [] ->
+  (forall c a, In c cells -> In a (active_axes ROps m) -> (1 <= cidx a c <= mN ROps m a)%nat /\ signs_ok m D c a) ->
+  (forall c, In c cells -> alpha c / dt * (x c - old c) + rsuml (fun a => axis_term m D u x a c) (active_axes ROps m) + beta c * x c = 0) ->
+  (forall c, In c cells -> alpha c / dt * (y c - old c) + rsuml (fun a => axis_term m D u y a c) (active_axes ROps m) + beta c * y c = 0) ->
+  (forall c, In c cells -> rsuml (fun a => divrow ROps m u a c) (active_axes ROps m) = 0) ->
+  (forall c, In c cells -> 0 < alpha c /\ 0 <= beta c) -> 0 < dt ->
+  (* the difference of the ghost values obeys the homogeneous boundary relation (Dirichlet: z_g = - z_i ; no-flux: z_g = z_i) *)
+  (forall c a, In c cells -> In a (active_axes ROps m) ->
+     (In (cdn a c) cells \/ (x (cdn a c) - y (cdn a c) = x c - y c \/ x (cdn a c) - y (cdn a c) = - (x c - y c))) /\
+     (In (cup a c) cells \/ (x (cup a c) - y (cup a c) = x c - y c \/ x (cup a c) - y (cup a c) = - (x c - y c)))) ->
+  forall c, In c cells -> x c = y c.
+Proof.
+  intros Hne Hcells Hx Hy Hdiv Hcoef Hdt Hgh c Hc.
+  set (z := fun c0 => x c0 - y c0).
+  assert (Hrow : forall c0, In c0 cells -> alpha c0 / dt * (z c0 - 0) + rsuml (fun a => axis_term m D u z a c0) (active_axes ROps m) + beta c0 * z c0 = 0).
+  { intros c0 Hc0. unfold z. rewrite rsuml_axis_term_sub. pose proof (Hx c0 Hc0). pose proof (Hy c0 Hc0). nra. }
+  assert (Hup : z c <= 0).
+  { apply (max_principle_upper m D u z alpha beta (fun _ => 0) dt 0 cells Hne Hcells Hrow Hdiv Hcoef Hdt); try (intros; lra); try lra; [|exact Hc].
+    intros c0 a Hc0 Ha. destruct (Hgh c0 a Hc0 Ha) as [Hd Hu]. unfold z. split.
+    - destruct Hd as [Hd|[Hd|Hd]]; [left; exact Hd|right; intros; lra|right; intros; lra].
+    - destruct Hu as [Hu|[Hu|Hu]]; [left; exact Hu|right; intros; lra|right; intros; lra]. }
+  assert (Hlo : 0 <= z c).
+  { apply (max_principle_lower m D u z alpha beta (fun _ => 0) dt 0 cells Hne Hcells Hrow Hdiv Hcoef Hdt); try (intros; lra); try lra; [|exact Hc].
+    intros c0 a Hc0 Ha. destruct (Hgh c0 a Hc0 Ha) as [Hd Hu]. unfold z. split.
+    - destruct Hd as [Hd|[Hd|Hd]]; [left; exact Hd|right; intros; lra|right; intros; lra].
+    - destruct Hu as [Hu|[Hu|Hu]]; [left; exact Hu|right; intros; lra|right; intros; lra]. }
+  unfold z in *. lra.
+Qed.
